@@ -188,6 +188,76 @@ class Unpack(_Blocks):
         return out
 
 
+class ParamRename(ast.NodeTransformer):
+    """parameters of private module-level functions (`_name`, only ever called directly by name inside their module, no nested scopes that
+    could capture a parameter) are renamed p -> p_q, with the keyword names at the call sites; the public API keeps its names"""
+
+    def __init__(self, tree, imported_elsewhere):
+        self.targets = {}
+        uses = {}
+        for n in ast.walk(tree):
+            if isinstance(n, ast.Name) and isinstance(n.ctx, ast.Load):
+                uses[n.id] = uses.get(n.id, 0) + 1
+        calls = {}
+        for n in ast.walk(tree):
+            if isinstance(n, ast.Call) and isinstance(n.func, ast.Name):
+                calls[n.func.id] = calls.get(n.func.id, 0) + 1
+        for s_ in tree.body:
+            if isinstance(s_, ast.FunctionDef) and s_.name.startswith("_") and not s_.name.startswith("__") and s_.name not in imported_elsewhere \
+                    and uses.get(s_.name, 0) == calls.get(s_.name, 0) and not s_.args.vararg and not s_.args.kwarg \
+                    and not any(isinstance(x, (ast.FunctionDef, ast.Lambda, ast.ClassDef, ast.Global, ast.Nonlocal)) and x is not s_ for x in ast.walk(s_)) \
+                    and not any(any(k.arg is None for k in c.keywords) for c in ast.walk(tree)
+                                if isinstance(c, ast.Call) and isinstance(c.func, ast.Name) and c.func.id == s_.name):
+                params = [a.arg for a in s_.args.args + s_.args.kwonlyargs]
+                body_names = {x.id for x in ast.walk(s_) if isinstance(x, ast.Name)}
+                if not any(p_ + "_q" in body_names for p_ in params):
+                    self.targets[s_.name] = set(params)
+
+    def visit_FunctionDef(self, node):
+        if node.name in self.targets and node in getattr(self, "_top", ()):
+            ps = self.targets[node.name]
+            for a in node.args.args + node.args.kwonlyargs:
+                a.arg = a.arg + "_q"
+
+            class R(ast.NodeTransformer):
+                def visit_Name(self_, n):  # noqa: N805
+                    return ast.copy_location(ast.Name(n.id + "_q", n.ctx), n) if n.id in ps else n
+            node.body = [R().visit(st) for st in node.body]
+            node.args.defaults = [R().visit(d) for d in node.args.defaults]
+        self.generic_visit(node)
+        return node
+
+    def visit_Module(self, node):
+        self._top = set(node.body)
+        self.generic_visit(node)
+        return node
+
+    def visit_Call(self, node):
+        self.generic_visit(node)
+        if isinstance(node.func, ast.Name) and node.func.id in self.targets:
+            for k in node.keywords:
+                if k.arg in self.targets[node.func.id]:
+                    k.arg = k.arg + "_q"
+        return node
+
+
+def _imported_private_names(root):
+    out = set()
+    for dp, _, fs in os.walk(root):
+        for f in fs:
+            if f.endswith(".py"):
+                try:
+                    t = ast.parse(open(os.path.join(dp, f)).read())
+                except SyntaxError:
+                    continue
+                for n in ast.walk(t):
+                    if isinstance(n, ast.ImportFrom):
+                        out |= {a.name for a in n.names if a.name.startswith("_")}
+                    if isinstance(n, ast.Attribute) and n.attr.startswith("_") and not n.attr.startswith("__"):
+                        out.add(n.attr)
+    return out
+
+
 def shuffle(tree):
     body, out, run = tree.body, [], []
     for s in body + [None]:
@@ -202,11 +272,16 @@ def shuffle(tree):
     return tree
 
 
+IMPORTED = set()
+
+
 def main():
     mode = sys.argv[1]
     props = sys.argv[2:] or [f"C{i:02d}" for i in range(1, 21)]
     root = tempfile.mkdtemp(prefix=f"pqstatic-{mode}-"); os.rmdir(root)
     make_copy(root)
+    global IMPORTED
+    IMPORTED = _imported_private_names(os.path.join(root, "piquasso")) if mode == "paramren" else set()
     n = 0
     for dp, _, fs in os.walk(os.path.join(root, "piquasso")):
         for f in fs:
@@ -218,7 +293,8 @@ def main():
             tree = {"nest": lambda t: Nest().visit(t), "retvar": lambda t: RetVar().visit(t), "shuffle": shuffle,
                     "invert": lambda t: Invert().visit(t), "kw": lambda t: Keywords(t).visit(t),
                     "mulswap": lambda t: MulSwap().visit(t), "argtemp": lambda t: ArgTemp().visit(t),
-                    "unelse": lambda t: UnElse().visit(t), "unpack": lambda t: Unpack().visit(t)}[mode](tree)
+                    "unelse": lambda t: UnElse().visit(t), "unpack": lambda t: Unpack().visit(t),
+                    "paramren": lambda t: ParamRename(t, IMPORTED).visit(t)}[mode](tree)
             out = ast.unparse(ast.fix_missing_locations(tree))
             compile(out, p, "exec")
             open(p, "w").write(out)
